@@ -74,7 +74,7 @@ func genCase(t *rapid.T) Case {
 	for i := 0; i < n; i++ {
 		kind := "retain"
 		if i > 0 {
-			kind = rapid.SampledFrom([]string{"retain", "read", "read", "read-goroutine", "read-conn", "write", "conn-retain", "conn-retain", "conn-read", "conn-read", "retain-odd", "reserialize", "unmarshal", "answer", "echo", "marshal-echo", "buf-retain", "buf-read", "buf-read", "scribble"}).Draw(t, "kind")
+			kind = rapid.SampledFrom([]string{"retain", "read", "read", "read-goroutine", "read-conn", "write", "conn-retain", "conn-retain", "conn-read", "conn-read", "retain-odd", "reserialize", "unmarshal", "answer", "inspect", "echo", "marshal-echo", "buf-retain", "buf-read", "buf-read", "scribble"}).Draw(t, "kind")
 		}
 		var m gen.Msg
 		m.Flags, m.Code, m.App, m.HbH, m.E2E = cat.Header(t)
@@ -97,7 +97,7 @@ func genCase(t *rapid.T) Case {
 		if allBig {
 			maxBytes = 70000
 		}
-		m.AVPs = cat.Tree(t, 0, gen.TreeOpts{MaxTop: rapid.IntRange(1, 6).Draw(t, "top"), MaxDepth: 3, OnlyTypes: types, Val: gen.ValueOpts{MaxBytes: maxBytes}})
+		m.AVPs = cat.Tree(t, 0, gen.TreeOpts{MaxTop: rapid.IntRange(1, 6).Draw(t, "top"), MaxDepth: 3, OnlyTypes: types, WithGroups: true, Val: gen.ValueOpts{MaxBytes: maxBytes}})
 		if maxBytes == 70000 {
 			// make sure the body really is above 64 KiB, and keeps a view-typed value
 			big := make([]byte, 66000+i)
@@ -401,6 +401,26 @@ func runCase(c Case) *ev.Failure {
 			}
 			m.Unmarshal(&reused.D)
 			m.Unmarshal(&reused.G)
+		case "inspect":
+			// looking things up in a kept message (by code, by path through its groups), printing
+			// and measuring it are reads: they must leave it alone
+			for _, r := range kept {
+				for _, a := range r.m.AVP {
+					r.m.FindAVP(a.Code, a.VendorID)
+					r.m.FindAVPs(a.Code, a.VendorID)
+					if g, ok := a.Data.(*diam.GroupedAVP); ok && g != nil {
+						for _, b := range g.AVP {
+							r.m.FindAVPsWithPath([]interface{}{a.Code, b.Code}, dict.UndefinedVendorID)
+							if h, ok := b.Data.(*diam.GroupedAVP); ok && h != nil && len(h.AVP) > 0 {
+								last := h.AVP[len(h.AVP)-1]
+								r.m.FindAVPsWithPath([]interface{}{a.Code, b.Code, last.Code}, dict.UndefinedVendorID)
+							}
+						}
+					}
+				}
+				_ = r.m.String()
+				_ = r.m.Len()
+			}
 		case "answer":
 			// answering a kept request (and editing the answer) must leave the request alone
 			for _, r := range kept {
@@ -525,7 +545,7 @@ func readThroughConn(p *dict.Parser, ref []byte, step int) *ev.Failure {
 
 var prop = ev.Register(&ev.Prop[Case]{
 	ID: "C06", Name: "retained",
-	Rule: "histories of {retain a decoded message, retain a message delivered by a long-lived library-served connection while that connection goes on receiving, read other content on the same goroutine / another goroutine / through a fresh or the same library-served in-memory connection, read / retain from one bytes.Buffer that the application refills, WriteTo, re-serialise, Unmarshal into a reused struct, Answer, echo the AVPs of a retained message into an answer with AddAVP / InsertAVP or through Marshal of a []*diam.AVP field, retain a non-canonical wire image (other widths of fixed-width, IPv4 and IPv6 AVPs, version octet 0 / 2 / 255), overwrite in place the slice-backed values of one retained message (the others must not change)} with messages made of slice-backed types (Address IPv4/IPv6/other, IPv4, IPv6, OctetString, undefined codes, groups of them) on both sides of the 1 KiB pooled buffer; after EVERY step every retained message must still equal the abstract message it was decoded from (tree, re-serialisation, rendering, and the snapshot of code / flags / vendor id / Length / value bytes of every AVP taken when it was decoded); non-trivial = a retained message with a slice-backed value and body <= 1024 followed by a later read with body <= 1024",
+	Rule: "histories of {retain a decoded message, retain a message delivered by a long-lived library-served connection while that connection goes on receiving, read other content on the same goroutine / another goroutine / through a fresh or the same library-served in-memory connection, read / retain from one bytes.Buffer that the application refills, WriteTo, re-serialise, Unmarshal into a reused struct, Answer, inspect (FindAVP / FindAVPs / FindAVPsWithPath through its groups, String, Len), echo the AVPs of a retained message into an answer with AddAVP / InsertAVP or through Marshal of a []*diam.AVP field, retain a non-canonical wire image (other widths of fixed-width, IPv4 and IPv6 AVPs, version octet 0 / 2 / 255), overwrite in place the slice-backed values of one retained message (the others must not change)} with messages made of slice-backed types (Address IPv4/IPv6/other, IPv4, IPv6, OctetString, undefined codes, groups of them) on both sides of the 1 KiB pooled buffer; after EVERY step every retained message must still equal the abstract message it was decoded from (tree, re-serialisation, rendering, and the snapshot of code / flags / vendor id / Length / value bytes of every AVP taken when it was decoded); non-trivial = a retained message with a slice-backed value and body <= 1024 followed by a later read with body <= 1024",
 	Gen:  genCase, Run: runCase,
 	Classify: func(c Case) (bool, []string) {
 		var cl []string
@@ -550,6 +570,16 @@ var prop = ev.Register(&ev.Prop[Case]{
 				}
 				if !small {
 					cl = append(cl, "retained-body>1KiB")
+				}
+				grouped := false
+				gen.Walk(s.Msg.AVPs, 1, func(a *gen.AVP, _ int) {
+					if a.V.T == gen.TGrouped && len(a.Children) >= 2 {
+						grouped = true
+					}
+				})
+				if grouped && !seen["retained-group"] {
+					seen["retained-group"] = true
+					cl = append(cl, "retained-grouped-avp-with-2+-members")
 				}
 				if bodyLen(&s.Msg) > 64<<10 {
 					cl = append(cl, "retained-body>64KiB")
